@@ -1,5 +1,5 @@
 ----------------------------- MODULE CsrSramGraph -----------------------------
-EXTENDS CsrSramContract, Json, IOUtils
+EXTENDS CsrSramContract, Json, IOUtils, GraphLookup
 G == JsonDeserialize(IOEnv.GRAPH)
 NDuts == Len(G.duts)
 VARIABLES d, s
@@ -8,11 +8,10 @@ C == G.duts[d].cfg
 Init == /\ d \in 1..NDuts /\ s = 0 /\ CInit(C)
 Step(iv) ==
   /\ s >= 0
-  /\ LET k == ToString(iv) IN
-       IF k \in DOMAIN G.duts[d].succ[s + 1]
-       THEN LET e == G.duts[d].succ[s + 1][k] IN
-            /\ s' = e.d /\ d' = d
-            /\ CStep(C, iv, e.o)
+  /\ LET e == GLookup(G.duts[d].succ[s + 1], iv) IN        \* <<iv, outputs, successor>> or <<>>
+       IF e # <<>>
+       THEN /\ s' = e[3] /\ d' = d
+            /\ CStep(C, iv, e[2])
        ELSE /\ PrintT(<<"NEED", d, s, iv>>)
             /\ s' = -1 /\ d' = d /\ UNCHANGED cvars
 Next == \E iv \in Inputs(C) : Step(iv)
